@@ -348,8 +348,9 @@ RefAdd(dir, b) ==
      sel |-> IF IsDotSlash(p) THEN SomeS(Base(dir) \o "/" \o From(p, 3))
              ELSE IF ~IsRelative(p) THEN SomeS(p)
              ELSE IF ~b.host.s /\ ~b.port.s THEN SomeS(Base(dir) \o "/" \o p)       \* relative to the directory
-             ELSE IF Plusish(b.host) /\ Plusish(b.port) THEN NoS                   \* E.1 is silent: "+" with a relative path
-             ELSE SomeS(p),
+             \* "+" means this server EXACTLY like an absent field: the same resolution of a relative path
+             ELSE IF Plusish(b.host) /\ Plusish(b.port) THEN SomeS(Base(dir) \o "/" \o p)
+             ELSE SomeS(p),                                                         \* some (other) server named: as given
      host |-> IF Plusish(b.host) THEN dir.srv.host ELSE b.host.v,
      port |-> IF Plusish(b.port) THEN dir.srv.port ELSE b.port.v,
      num |-> IF b.numb.s THEN b.numb.v ELSE 0,
@@ -476,8 +477,18 @@ Count(q, P(_)) == Cardinality({i \in 1..Len(q) : P(q[i])})
 \* O: [ok, out] as lexed from the Gopher menu (or as modelled); R: RefListing; H: hidden selectors
 HidesOnXorDash(O, R, H) ==
     \A s \in H : Count(O.out, LAMBDA o : o.sel = s) <= Count(R, LAMBDA r : r.sel.s /\ r.sel.v = s)
+\* an entry written with Host=+ / Port=+ is listed exactly as if the field were absent: this server's name and
+\* port AND the selector an absent field would give
+MatchTitle(o, r) == (r.type.s => o.type = r.type.v) /\ o.name = r.name
 PlusMeansThisServer(O, R) ==
-    \A r \in Range(R) : (r.plus /\ \E o \in Range(O.out) : MatchButServer(o, r)) => \E o \in Range(O.out) : MatchFields(o, r)
+    \A r \in Range(R) : (r.plus /\ \E o \in Range(O.out) : MatchTitle(o, r)) => \E o \in Range(O.out) : MatchFields(o, r)
+\* ... and what it points at can be fetched from this server when it is there.  fetch[i]: what alpha got
+\* when it requested the selector of menu line i from this server ("ok" | "notfound" | "noreply" | "n/a")
+OnDisk(dir) == {Base(dir) \o "/" \o dir.files[i] : i \in 1..Len(dir.files)}
+               \cup {Base(dir) \o "/" \o dir.files[i] \o "/inner.txt" : i \in {k \in 1..Len(dir.files) : FileInfo(dir.files[k]).kind = "dir"}}
+PlusIsFetchable(fetch, R, dir) ==
+    \A i \in 1..Len(R) : (R[i].plus /\ R[i].host = dir.srv.host /\ R[i].port = dir.srv.port      \* points at this server
+                            /\ R[i].sel.s /\ R[i].sel.v \in OnDisk(dir)) => fetch[i] = "ok"
 AddsWhenNotDotSlash(O, R) ==
     /\ \A r \in Range(R) : r.src = "add" => \E o \in Range(O.out) : MatchFields(o, r)
     /\ Len(O.out) = Len(R)
